@@ -258,8 +258,10 @@ func malform(r *rand.Rand, u universe) string {
 	case 7: // version containing '>' : mangled keys of two bundlers may coincide
 		v.V = "1>x"
 		return "gt-in-version"
-	case 8: // many equal-length paths (sort stability) and > 12 entries
-		for i := 0; i < 14; i++ {
+	case 8: // many equal-length paths. Not more than 12 entries in all: Go's sort.Slice is an
+		// insertion sort (stable) up to 12 elements and the model sorts stably; beyond that
+		// pdqsort permutes entries of equal path length in an implementation-defined way.
+		for i := 0; len(v.Bundled) < 12; i++ {
 			v.Bundled = append(v.Bundled, bundle{Path: "node_modules/" + string(rune('m'+i%7)) + string(rune('a'+i)), Name: "n", Version: "1.0.0"})
 		}
 		return "many-bundles"
